@@ -9,7 +9,7 @@ PROPS_V = "theories/Props/C12.v"
 
 def run(ctx):
     common.app_check(ctx, "C12", PROPS_V if os.path.exists(os.path.join(V.COQ, PROPS_V)) else None, THEOREMS,
-                     codes=[1, 2, 3, 11], pred="P_C12", profile="corpus noise restart judge", known_classes=(1,),
+                     codes=[1, 2, 3, 11], pred="P_C12_power", profile="corpus noise restart judge", known_classes=(1, 3),
                      extra_assume=["'exactly once' needs unique stake hashes (see C11; the genesis-hash collision is the known finding: the overwritten stake is never refunded)",
                                    "the refund scan reads the previously committed unbonding set, so a stake is paid at the first EndBlock with height >= refund height at which it is committed"],
                      nontrivial_rule="every history is executed again on a node under mempool traffic and on a node restarted at block boundaries and the predicate is judged on what THAT node answered as well; the predicate checks: a stake leaves the bonded set only through a successful unstaking transaction of its owner naming it, through its delegatee losing all own stake, or through slashing; it is then recorded as unbonding with refund height = block height + period in force; matured stakes are gone and the owner's balance follows the exact balance equation (refund = power*10^18 once)")
